@@ -138,7 +138,7 @@ theorem slot_sub_roots (s : St) (k : SlotKind) (xs : List Item) (hg : slotGet s 
 /-! ### results of `exec` -/
 
 structure PostS (s0 : St) (lk : List Item) (r : Res) : Prop where
-  ex : ∃ lk', InvS r.s lk' ∧ (Acyclic s0.c.heap → lk = [] → lk' = [])
+  ex : ∃ lk', InvS r.s lk' ∧ (Acyclic s0.c.heap → lk' = lk)
   raised : ∀ x, r.raised = some x → WfItem r.s.c.heap x
   len : s0.c.heap.length ≤ r.s.c.heap.length
 
@@ -165,13 +165,13 @@ theorem exec_s_inv {s : St} {lk : List Item} (sop : SOp) (hc : sop.core = true) 
       subst h
       obtain ⟨lk2, i2, hac⟩ := hpost
       refine ⟨⟨lk ++ lk2, ⟨invC_setW i2, exc_of_len inv (setW_uncaught _ _) hlen⟩, ?_⟩, (by intro x hx; cases hx), hlen⟩
-      intro ha hl; rw [hl, hac ha]; rfl
+      intro ha; rw [hac ha]; simp
     | throw w' =>
       simp only [he, Option.some.injEq] at h
       subst h
       obtain ⟨lk2, i2, hac⟩ := hpost
       refine ⟨⟨lk ++ lk2, ⟨invC_setW i2, exc_of_len inv (setW_uncaught _ _) hlen⟩, ?_⟩, ?_, hlen⟩
-      · intro ha hl; rw [hl, hac ha]; rfl
+      · intro ha; rw [hac ha]; simp
       · intro x hx; simp only [Option.some.injEq] at hx; rw [← hx]; exact wfItem_prim _
 
 theorem exec_ld_inv {s : St} {lk : List Item} (k : SlotKind) (i : Nat) (inv : InvS s lk)
@@ -196,7 +196,7 @@ theorem exec_ld_inv {s : St} {lk : List Item} (k : SlotKind) (i : Nat) (inv : In
         rw [setW_c, s1.1]; exact Nat.le_refl _
       refine ⟨⟨lk ++ [], ⟨invC_setW (i1.congr (by intro id; simp) (by simp)), exc_of_len inv (setW_uncaught _ _) hlen⟩, ?_⟩,
         (by intro x hx; cases hx), hlen⟩
-      intro _ hl; simp [hl]
+      intro _; simp
 
 theorem exec_st_inv {s : St} {lk : List Item} (k : SlotKind) (i : Nat) (inv : InvS s lk)
     (r : Res) (h : exec (.st k i) s = some r) : PostS s lk r := by
@@ -255,7 +255,7 @@ theorem exec_st_inv {s : St} {lk : List Item} (k : SlotKind) (i : Nat) (inv : In
           rw [(e2 0).2.2.1]; show (w.c.rem old) = _; rw [hst.2]
         have hlen : s.c.heap.length ≤ (slotSet s1 k (xs.set i item)).c.heap.length := by
           rw [hc2]; simp
-        refine ⟨⟨lk, ⟨by rw [hc2]; exact hirem.1, exc_of_len inv (by rw [(e2 0).2.2.2.1]; rfl) hlen⟩, fun _ hl => hl⟩,
+        refine ⟨⟨lk, ⟨by rw [hc2]; exact hirem.1, exc_of_len inv (by rw [(e2 0).2.2.2.1]; rfl) hlen⟩, fun _ => rfl⟩,
           (by intro x hx; cases hx), hlen⟩
 
 end NeoModel.VmAcct
@@ -265,7 +265,7 @@ namespace NeoModel.VmAcct
 theorem exec_nop_inv {s : St} {lk : List Item} (inv : InvS s lk) (r : Res) (h : exec .nop s = some r) : PostS s lk r := by
   simp only [exec, ok, Option.some.injEq] at h
   subst h
-  exact ⟨⟨lk, inv, fun _ hl => hl⟩, (by intro x hx; cases hx), Nat.le_refl _⟩
+  exact ⟨⟨lk, inv, fun _ => rfl⟩, (by intro x hx; cases hx), Nat.le_refl _⟩
 
 theorem exec_endfinally_inv {s : St} {lk : List Item} (inv : InvS s lk) (r : Res) (h : exec .endfinally s = some r) :
     PostS s lk r := by
@@ -274,11 +274,11 @@ theorem exec_endfinally_inv {s : St} {lk : List Item} (inv : InvS s lk) (r : Res
   | none =>
     simp only [hu, ok, Option.some.injEq] at h
     subst h
-    exact ⟨⟨lk, inv, fun _ hl => hl⟩, (by intro x hx; cases hx), Nat.le_refl _⟩
+    exact ⟨⟨lk, inv, fun _ => rfl⟩, (by intro x hx; cases hx), Nat.le_refl _⟩
   | some x =>
     simp only [hu, Option.some.injEq] at h
     subst h
-    refine ⟨⟨lk, inv, fun _ hl => hl⟩, ?_, Nat.le_refl _⟩
+    refine ⟨⟨lk, inv, fun _ => rfl⟩, ?_, Nat.le_refl _⟩
     intro y hy
     simp only [Option.some.injEq] at hy
     rw [← hy]; exact inv.exc x hu
@@ -294,7 +294,7 @@ theorem exec_throw_inv {s : St} {lk : List Item} (inv : InvS s lk) (r : Res) (h 
     obtain ⟨i1, s1, hv, _⟩ := pop_inv inv.toW hp
     have hlen : s.c.heap.length ≤ (s.setW w).c.heap.length := by rw [setW_c, s1.1]; exact Nat.le_refl _
     refine ⟨⟨lk ++ [], ⟨invC_setW (i1.congr (by intro id; simp) (by simp)), exc_of_len inv (setW_uncaught _ _) hlen⟩,
-      fun _ hl => by simp [hl]⟩, ?_, hlen⟩
+      fun _ => by simp⟩, ?_, hlen⟩
     intro y hy
     simp only [Option.some.injEq] at hy
     rw [← hy]; exact hv
@@ -315,7 +315,7 @@ theorem exec_initsslot_inv {s : St} {lk : List Item} (n : Nat) (inv : InvS s lk)
         have e : slotSet s .sfld (List.replicate n Item.prim) = { s with frames := setStatic s.frames (List.replicate n Item.prim) } := by
           cases hf : s.frames <;> simp [slotSet, hf]
         have hc := fun id => cnt_setStatic id (List.replicate n Item.prim) s.frames s.base hany
-        refine ⟨⟨lk, ⟨?_, ?_⟩, fun _ hl => hl⟩, (by intro x hx; cases hx), ?_⟩
+        refine ⟨⟨lk, ⟨?_, ?_⟩, fun _ => rfl⟩, (by intro x hx; cases hx), ?_⟩
         · rw [e]
           refine ⟨inv.ctr.wf, fun id => ?_, ?_⟩
           · have := inv.ctr.rc id
@@ -345,7 +345,7 @@ theorem exec_call_inv {s : St} {lk : List Item} (pops : Nat) (inv : InvS s lk) (
       obtain ⟨i1, s1, _, _⟩ := popN_inv pops inv.toW hp
       have i2 := invC_setW (s := s) (lk := lk) (lk2 := []) (w' := w) (i1.congr (by intro id; simp) (by simp))
       have hlen : s.c.heap.length ≤ (s.setW w).c.heap.length := by rw [setW_c, s1.1]; exact Nat.le_refl _
-      refine ⟨⟨lk ++ [], ⟨?_, exc_of_len inv rfl hlen⟩, fun _ hl => by simp [hl]⟩,
+      refine ⟨⟨lk ++ [], ⟨?_, exc_of_len inv rfl hlen⟩, fun _ => by simp⟩,
         (by intro x hx; cases hx), hlen⟩
       refine i2.congr ?_ ?_
       · intro id
@@ -384,19 +384,23 @@ theorem roots_cons (f : Frame) (fs : List Frame) (b : List Item) (id : Nat) :
   simp only [rootsOf, cnt_append, List.flatMap_cons, Frame.roots, List.length_append]
   constructor <;> omega
 
+theorem droppedOf_clean {k : Nat} {fs : List Frame} (h : ∀ f ∈ fs.take k, slotItems f.own = []) : droppedOf k fs = [] := by
+  simp only [droppedOf, List.flatMap_eq_nil_iff]
+  exact h
+
 /-- handleException: unloading `k` contexts; what their evaluation stacks held is not discounted -/
 theorem unwindFrames_inv (b : List Item) : ∀ (k : Nat) (fs : List Frame) (c : Ctr) (lk : List Item) (fs' : List Frame) (c' : Ctr),
     InvC c (fun id => cnt id (rootsOf fs b) + cnt id lk) ((rootsOf fs b).length + lk.length) →
     unwindFrames k fs c = some (fs', c') →
     ∃ dr : List Item, InvC c' (fun id => cnt id (rootsOf fs' b) + cnt id (lk ++ dr)) ((rootsOf fs' b).length + (lk ++ dr).length) ∧
-      c'.heap.length = c.heap.length ∧ ((∀ f ∈ fs.take k, slotItems f.own = []) → dr = []) := by
+      c'.heap.length = c.heap.length ∧ dr = droppedOf k fs := by
   intro k
   induction k with
   | zero =>
     intro fs c lk fs' c' inv h
     simp only [unwindFrames, Option.some.injEq, Prod.mk.injEq] at h
     obtain ⟨rfl, rfl⟩ := h
-    exact ⟨[], by simpa using inv, rfl, fun _ => rfl⟩
+    exact ⟨[], by simpa using inv, rfl, by simp [droppedOf]⟩
   | succ k ih =>
     intro fs c lk fs' c' inv h
     cases fs with
@@ -410,14 +414,11 @@ theorem unwindFrames_inv (b : List Item) : ∀ (k : Nat) (fs : List Frame) (c : 
           (by have := (hr 0).2; simp only [List.length_append]; omega))
       obtain ⟨dr, i2, l2, hd⟩ := ih t (unloadSlots f c) (lk ++ slotItems f.own) fs' c' i1 h
       refine ⟨slotItems f.own ++ dr, by simpa [List.append_assoc] using i2, by rw [l2, l1], ?_⟩
-      intro hall
-      have h0 : slotItems f.own = [] := hall f (by simp)
-      have h1 : dr = [] := hd (fun g hg => hall g (by simp [hg]))
-      simp [h0, h1]
+      rw [hd]; simp [droppedOf]
 
 theorem unwind_inv {s s' : St} {lk : List Item} (x : Item) (k : Nat) (c : Bool) (inv : InvS s lk) (hx : WfItem s.c.heap x)
     (h : unwind s x k c = some s') :
-    ∃ lk', InvS s' lk' ∧ s.c.heap.length ≤ s'.c.heap.length ∧ ((∀ f ∈ s.frames.take k, slotItems f.own = []) → lk' = lk) := by
+    ∃ lk', InvS s' lk' ∧ s.c.heap.length ≤ s'.c.heap.length ∧ lk' = lk ++ droppedOf k s.frames := by
   simp only [unwind] at h
   cases hu : unwindFrames k s.frames s.c with
   | none => simp [hu] at h
@@ -432,7 +433,7 @@ theorem unwind_inv {s s' : St} {lk : List Item} (x : Item) (k : Nat) (c : Bool) 
       | false =>
         simp only [Bool.false_eq_true, if_false, Option.some.injEq] at h
         subst h
-        refine ⟨lk ++ dr, ⟨i1, ?_⟩, by simp [l1], fun hall => by simp [hd hall]⟩
+        refine ⟨lk ++ dr, ⟨i1, ?_⟩, by simp [l1], by rw [hd]⟩
         intro y hy
         simp only [Option.some.injEq] at hy
         rw [← hy]; exact hx1
@@ -443,7 +444,7 @@ theorem unwind_inv {s s' : St} {lk : List Item} (x : Item) (k : Nat) (c : Bool) 
         have invs1 : InvS s1 (lk ++ dr) := ⟨i1, fun y hy => wfItem_of_len (inv.exc y hy) (by simp [s1, l1])⟩
         obtain ⟨i2, ss⟩ := push_inv invs1.toW (x := x) hx1
         have i3 := invC_setW (s := s1) (lk := lk ++ dr) (lk2 := []) (w' := s1.w.push x) (i2.congr (by intro id; simp) (by simp))
-        refine ⟨lk ++ dr ++ [], ⟨i3, by intro y hy; cases hy⟩, ?_, fun hall => by simp [hd hall]⟩
+        refine ⟨lk ++ dr ++ [], ⟨i3, by intro y hy; cases hy⟩, ?_, by rw [hd]; simp⟩
         show s.c.heap.length ≤ (s1.w.push x).c.heap.length
         rw [ss.1]; simp [s1, St.w, l1]
 
@@ -499,7 +500,7 @@ theorem exec_load_inv {s : St} {lk : List Item} (mode nargs : Nat) (inv : InvS s
           have hm : x ∈ s.cur := List.mem_of_mem_take hx
           have : WfItem s.c.heap x := inv.toW.mem_valid (by simpa [St.w] using hm)
           exact wfItem_of_len this (by simp [setW_c, hl1])
-        refine ⟨⟨lk, ?_, fun _ hl => hl⟩, (by intro x hx; cases hx), ?_⟩
+        refine ⟨⟨lk, ?_, fun _ => rfl⟩, (by intro x hx; cases hx), ?_⟩
         · exact (push_frame_args _ (loadFrame_roots _ _ _) (s.cur.take nargs) invs1 hargs).1
         · show s.c.heap.length ≤ ((s.setW w).c.addAll (s.cur.take nargs).reverse).heap.length
           simp [setW_c, hl1]
@@ -554,7 +555,7 @@ theorem exec_initslot_inv {s : St} {lk : List Item} (l a : Nat) (inv : InvS s lk
         by_cases ha : a = 0
         · simp only [ha, if_true, ok, Option.some.injEq] at h
           subst h
-          exact ⟨⟨lk, inv1, fun _ hl => hl⟩, (by intro x hx; cases hx), by rw [hh]; exact Nat.le_refl _⟩
+          exact ⟨⟨lk, inv1, fun _ => rfl⟩, (by intro x hx; cases hx), by rw [hh]; exact Nat.le_refl _⟩
         · simp only [ha, if_false] at h
           split at h
           · simp only [ok, Option.some.injEq] at h
@@ -562,7 +563,7 @@ theorem exec_initslot_inv {s : St} {lk : List Item} (l a : Nat) (inv : InvS s lk
             have e1 := fun id => slot_init_arg s1 f1 fs hf1 ha1 (s1.cur.take a) id
             have e2 := fun id => cnt_setCur id (slotSet s1 .arg (s1.cur.take a)) (s1.cur.drop a)
             have e2l := len_setCur (slotSet s1 .arg (s1.cur.take a)) (s1.cur.drop a)
-            refine ⟨⟨lk, ⟨?_, ?_⟩, fun _ hl => hl⟩, (by intro x hx; cases hx), ?_⟩
+            refine ⟨⟨lk, ⟨?_, ?_⟩, fun _ => rfl⟩, (by intro x hx; cases hx), ?_⟩
             · dsimp only
               rw [c_setCur, (e1 0).2.2.2.1]
               refine inv1.ctr.congr ?_ ?_
